@@ -10,7 +10,7 @@ from typing import Any, Dict, List, Optional
 from .srcmodel import AnalysisError
 
 VERIF_DIR = os.path.dirname(os.path.dirname(os.path.abspath(__file__)))
-EVIDENCE_DIR = os.path.join(VERIF_DIR, 'evidence')
+EVIDENCE_DIR = os.environ.get('VERIF_EVIDENCE_DIR') or os.path.join(VERIF_DIR, 'evidence')
 KNOWN_FILE = os.path.join(VERIF_DIR, 'known_findings.json')
 
 PASS, VIOLATION, KNOWN = 'pass', 'violation', 'known'
